@@ -1042,6 +1042,10 @@ func (g *gen) checkStoreGuards(st *State, k LeafKey, local bool, val *Term) {
 
 // bindLocals exposes source-level locals (dominator-correct) to a contract expression.
 func (g *gen) bindLocals(env *SpecEnv) {
+	if g.iterTerm != nil {
+		// completed iterations of the innermost cut loop around this point
+		env.vars["iter__"] = &SV{V: scalar(types.Typ[types.Int], g.iterTerm)}
+	}
 	// fallback for names that are not visible on every path to this point: if
 	// the variable denotes one single SSA value in the whole function, that
 	// value is used (it is arbitrary on paths that did not define it; the
